@@ -416,3 +416,42 @@ def run(P, rep, tier):
                    ('a return at line %d can be reached after %s was allocated (non-zeroing %s) and before %s was written: the failing element allocation returns '
                     'without storing its NULL result, so %s frees an uninitialised pointer' % (bad[0]['l'], base, bmac, cell0, sorted({g.name for g, _, _ in rs}))))
     rep.floor('C16.UNDEF', 8)
+
+    # ---------------- PUBLISHED: an SRM object creator hands its object to the wrapper by storing it through its first
+    # parameter (*object_dbl_ptr = obj).  From that store on the wrapper owns it: when the creator fails, EB_NEW in
+    # svt_system_resource_ctor runs svt_object_wrapper_dctor, which destroys wrapper->object_ptr.  A creator that also
+    # releases the published object on its failure path (without un-publishing it) destroys it twice.
+    creators = sorted(P._param_targets('svt_system_resource_ctor', 4, set()))
+    destroyers = P._param_targets('svt_system_resource_ctor', 6, set())
+    if len(creators) < 15:
+        raise AnalysisBroken('only %d SRM object creators resolved' % len(creators))
+    for cn in creators:
+        f = P.fn(cn, required=False)
+        if f is None or f.nocfg or not f.params:
+            continue
+        p0 = f.params[0][0]
+
+        def is_pub_target(t):
+            t = strip(t)
+            return bool(t) and t[0] == 'u' and t[1] == '*' and strip(t[2]) and strip(t[2])[0] == 'v' and strip(t[2])[1] == p0
+        pubs = [ev for ev in f.events(('st',)) if ev['e'][0] == 'a' and ev['e'][1] == '=' and is_pub_target(ev['e'][2]) and not is_lit(ev['e'][3], 0)]
+        unpubs = [ev for ev in f.events(('st',)) if ev['e'][0] == 'a' and ev['e'][1] == '=' and is_pub_target(ev['e'][2]) and is_lit(ev['e'][3], 0)]
+        bad = None
+        for pv in pubs:
+            x = pstr(strip(pv['e'][3]))
+            for ev in f.events(('call',)):
+                n = callee_name(ev['e'])
+                args = ev['e'][2]
+                if not args or pstr(strip(args[0])) != x:
+                    continue
+                releasing = n in ('free',) or n in destroyers or (n or '').endswith('_dctor') or (n is None and 'dctor' in pstr(ev['e'][1]))
+                if not releasing or not f.ev_dominates(pv, ev):
+                    continue
+                if any((u['b'] == ev['b'] and u['x'] > ev['x']) or (f.block_dominates(ev['b'], u['b']) and f.ev_postdominates(u, ev)) for u in unpubs):
+                    continue
+                bad = (ev, n or 'the destructor slot', x)
+        rep.ob('C16.PUBLISHED', '%s/published-object' % cn, bad is None, f.loc(bad[0]) if bad else f.loc(),
+               ('object published through *%s is released only by its wrapper' % p0) if bad is None else
+               ('%s(%s) is called after *%s = %s without un-publishing it: the wrapper destructor that unwinds the failed creator destroys the object a second time'
+                % (bad[1], bad[2], p0, bad[2])), nontrivial=bool(pubs))
+    rep.floor('C16.PUBLISHED', 15)
